@@ -24,6 +24,9 @@ use super::{Atom, AtomCell, HeapCellValue, HeapCellValueTag, Machine, streams::S
 #[cfg(test)]
 mod tests;
 
+#[cfg(feature = "verif_hooks")]
+mod verif_footprint;
+
 /// Represents a leaf answer from a query.
 #[derive(Debug, Clone, PartialEq)]
 pub enum LeafAnswer {
